@@ -77,6 +77,9 @@ fn main() {
         .unwrap();
     if handle.join().is_err() {
         // a panic in the harness itself (not in guarded engine calls): harness error, not a verdict
+        if core::UNGUARDED_ENGINE_PANIC.load(std::sync::atomic::Ordering::Relaxed) {
+            std::process::exit(core::EXIT_ENGINE_PANIC);
+        }
         eprintln!("HARNESS-PANIC");
         std::process::exit(3);
     }
